@@ -61,6 +61,9 @@ pub trait Walker: Visitor {
         self.visit_statement(stmt);
         match stmt {
             Statement::Let(def) => {
+                if let Some(ref mut constraint) = def.constraint {
+                    self.walk_expression(constraint);
+                }
                 self.walk_expression(&mut def.value);
             }
             Statement::Constraint(def) => {
@@ -111,13 +114,16 @@ pub trait Walker: Visitor {
             },
             Expression::FuncOp(def) => match def {
                 FuncOpDef::Reduce(def) => {
+                    self.walk_expression(def.func.as_mut());
                     self.walk_expression(def.target.as_mut());
                     self.walk_expression(def.acc.as_mut())
                 }
                 FuncOpDef::Map(def) => {
+                    self.walk_expression(def.func.as_mut());
                     self.walk_expression(def.target.as_mut());
                 }
                 FuncOpDef::Filter(def) => {
+                    self.walk_expression(def.func.as_mut());
                     self.walk_expression(def.target.as_mut());
                 }
             },
@@ -133,6 +139,12 @@ pub trait Walker: Visitor {
                 self.walk_fieldset(&mut def.arg_set);
                 for stmt in def.statements.iter_mut() {
                     self.walk_statement(stmt);
+                }
+                if let Some(ref mut expr) = def.out_expr {
+                    self.walk_expression(expr.as_mut());
+                }
+                if let Some(ref mut expr) = def.out_constraint {
+                    self.walk_expression(expr.as_mut());
                 }
             }
             Expression::Range(def) => {
@@ -168,6 +180,7 @@ pub trait Walker: Visitor {
             }
             Expression::Fail(f) => {
                 self.visit_fail(f);
+                self.walk_expression(f.message.as_mut());
                 self.leave_fail();
             }
             Expression::Not(def) => {
